@@ -114,7 +114,10 @@ func c09Finding(line string) string {
 
 // c09ExtraLines are hand-shaped lines the world generator does not produce.
 func c09ExtraLines(rng *rand.Rand) []string {
-	esc := []string{`a\054b`, `a\072b`, `a\134b`, `\052`, `x\040y`, `\303\251`, `a\000b`, `A-Z`}
+	// (the last five: raw multi-byte UTF-8 characters next to something that is escaped in the same field - the normal
+	// form keeps printable characters raw, so a field may hold both)
+	esc := []string{`a\054b`, `a\072b`, `a\134b`, `\052`, `x\040y`, `\303\251`, `a\000b`, `A-Z`,
+		"\xc3\xa9\\054x", "\xc3\xbc\\134y", "\xc3\xbf\\072z", "\xe2\x82\xac\\054", "caf\xc3\xa9"}
 	var out []string
 	for _, e := range esc {
 		n := e + ".example.com"
@@ -137,6 +140,7 @@ func c09ExtraLines(rng *rand.Rand) []string {
 		)
 	}
 	out = append(out,
+		"'utf8.example.com,caf\xc3\xa9 \\054 \xc3\xbf\\072 \xc2\x80\\134 end,60",
 		"Zexample.com,ns1.example.com,admin.example.com,0,1,2,3,4,5", // explicit serial 0
 		"Zexample.com:ns1.example.com:admin.example.com:00",
 		"B*.example.com,svc.example.com,300,,1,alpn=h3",
